@@ -7,6 +7,7 @@ and a run is a pure function of (seed_i, code under /repo).  The PRNG is
 consumed only by generators and schedulers, never by logging or oracles.
 """
 
+from . import reach as _reach
 import faulthandler
 import gc
 import hashlib
@@ -159,12 +160,14 @@ def run_in_child(fn, arg, wall_s=30.0):
                 resource.setrlimit(resource.RLIMIT_AS, (3 << 30, 3 << 30))
             except Exception:
                 pass
+            _reach.child_start()
             try:
                 res = fn(arg)
             except Violation as v:
                 res = violation_result(v)
             except BaseException:
                 res = {"status": HARNESS_ERROR, "detail": traceback.format_exc()[-4000:]}
+            _reach.child_result(res)
             try:
                 data = json.dumps(res, default=_json_default).encode()
             except Exception:
@@ -210,9 +213,11 @@ def run_in_child(fn, arg, wall_s=30.0):
     if not data:
         return {"status": HARNESS_ERROR, "detail": f"child died without result (wait status {st})"}
     try:
-        return json.loads(data)
+        res = json.loads(data)
     except Exception as e:
         return {"status": HARNESS_ERROR, "detail": f"bad child output: {e}"}
+    _reach.parent_collect(res)
+    return res
 
 
 # --------------------------------------------------------------------------
